@@ -262,3 +262,27 @@ CHECKS["C09"] = dict(
     assumptions=["file-system model; ULIDs are fresh increasing ids"],
     outside=["programs longer than 2 (quick) / 3 (thorough) operations", "suspend/enable alternation", "paging of version listings", "copy onto a versioned key"],
 )
+
+CHECKS["C11"] = dict(
+    explanation="posix PutObject (new key / overwrite) and DeleteObject on the file-system model, killed before an arbitrary file-system step (every step "
+                "of the operation is a crash point; no deferred clean-up runs), both temp-file strategies; a fresh Posix value then reads the key: it must "
+                "be in its complete previous or complete new state (bytes, length, ETag consistent), an acknowledged upload persists, left-over "
+                "temporaries are not listed and block neither re-upload, delete nor bucket deletion.",
+    harnesses=[
+        dict(name="H11-crash", entry="backend/posix.VfCrash", reach=["crashed", "completed-without-crash"], key_trace=['"crash before'], **_FS),
+    ],
+    assumptions=["file-system model: every completed step is durable (no fsync modelling), no torn writes", "xattr metadata store"],
+    outside=["CopyObject, CompleteMultipartUpload, UploadPart crash points", "versioned buckets", "sidecar metadata store"],
+)
+
+CHECKS["C05"] = dict(
+    explanation="GET versus overwriting PUT / DELETE on one existing key on the file-system model, possibly through two gateway processes: one of the two "
+                "operations runs to completion between two consecutive file-system steps of the other, for every position and both nesting directions; "
+                "a successful GET returns exactly one write's complete body with that write's ETag, an overwritten key never reads as missing, a read "
+                "after the acknowledged write sees it.",
+    harnesses=[
+        dict(name="H05-interleave", entry="backend/posix.VfInterleave", reach=["interleaved"], key_trace=['"other operation runs before'], **_FS),
+    ],
+    assumptions=["file-system model with atomic namespace steps", "schedules in which BOTH operations are split (A1 B1 A2 B2) are not explored"],
+    outside=["more than two concurrent operations", "writer/writer races", "multipart completion and copy as writers", "sidecar metadata store"],
+)
